@@ -253,7 +253,7 @@ impl TreeSys for Fam {
 
 fn main() {
     let run = Run::from_args("C13");
-    let fam = Fam { alpha: vec![None, Some(-1.0), Some(0.0), Some(2.0)], max_len: run.pick(6, 8), backend_len: run.pick(3, 5) };
+    let fam = Fam { alpha: vec![None, Some(-1.0), Some(0.0), Some(2.0)], max_len: run.pick(6, 9), backend_len: run.pick(3, 5) };
     if let Some(path) = &run.replay {
         let stored = load_replay(path).unwrap_or_else(|e| {
             eprintln!("MACHINERY-ERROR: {e}");
